@@ -304,6 +304,23 @@ func (c *wsConnection) run() {
 
 		switch m.t {
 		case startMessageType:
+			// An id names one running operation. Starting a second operation under an id that is
+			// still active would overwrite its cancel function (the first operation could no
+			// longer be stopped or cancelled on close) and interleave two result streams, with
+			// two completions, under one id. graphql-transport-ws requires closing the socket
+			// with 4409 in that case.
+			c.mu.Lock()
+			_, duplicate := c.active[m.id]
+			c.mu.Unlock()
+			if duplicate {
+				reason := fmt.Sprintf("Subscriber for %s already exists", m.id)
+				if len(reason) > maxCloseReasonLength {
+					reason = reason[:maxCloseReasonLength]
+				}
+				c.sendConnectionError("%s", reason)
+				c.close(closeSubscriberAlreadyExists, reason)
+				return
+			}
 			c.subscribe(start, &m)
 		case stopMessageType:
 			c.mu.Lock()
@@ -385,23 +402,6 @@ func (c *wsConnection) closeOnCancel(ctx context.Context) {
 }
 
 func (c *wsConnection) subscribe(start time.Time, msg *message) {
-	// An id names one running operation. Starting a second operation under an id that is still
-	// active would overwrite its cancel function (the first operation could no longer be stopped
-	// or cancelled on close) and interleave two result streams, with two completions, under one
-	// id. graphql-transport-ws requires closing the socket with 4409 in that case.
-	c.mu.Lock()
-	_, duplicate := c.active[msg.id]
-	c.mu.Unlock()
-	if duplicate {
-		reason := fmt.Sprintf("Subscriber for %s already exists", msg.id)
-		if len(reason) > maxCloseReasonLength {
-			reason = reason[:maxCloseReasonLength]
-		}
-		c.sendConnectionError("%s", reason)
-		c.close(closeSubscriberAlreadyExists, reason)
-		return
-	}
-
 	ctx := graphql.StartOperationTrace(c.ctx)
 	var params *graphql.RawParams
 	if err := jsonDecodeParams(bytes.NewReader(msg.payload), &params); err != nil {
